@@ -279,6 +279,24 @@ def sample_classes(ctx):
     if not isinstance(sd, ast.Dict):
         raise AnalysisError(f"{sf.site()}: shared export is not a dict literal")
     # writer: every exported column is a projection (key[0] / key[1] / value) of the items of self.single_effect_lookup, in item order
+    # necessary condition, whatever the projections are: all exported columns walk the table in ONE order. Keys taken from sorted(table)
+    # next to values taken from table.values() / .items() (insertion order) pair keys with the values of other entries.
+    orders = {}
+    for k_, v_ in zip(sd.keys, sd.values):
+        e_ = inline(v_, senv)
+        t_ = U(e_).replace(" ", "")
+        uses_sorted = any(isinstance(x, ast.Call) and call_name(x) == "sorted" and x.args and LOOKUP in U(x.args[0]) for x in ast.walk(e_))
+        uses_plain = any(isinstance(x, ast.Call) and isinstance(x.func, ast.Attribute) and x.func.attr in ("values", "items", "keys") and U(x.func.value) == LOOKUP
+                         and not any(isinstance(y, ast.Call) and call_name(y) == "sorted" and any(x is z for z in ast.walk(y)) for y in ast.walk(e_)) for x in ast.walk(e_))
+        if uses_sorted and not uses_plain:
+            orders[k_.value] = "sorted order"
+        elif uses_plain and not uses_sorted:
+            orders[k_.value] = "insertion order"
+    if len(set(orders.values())) > 1:
+        ctx.bad("R1", f"{cq.split('.', 1)[1]}::single_effect_lookup<->shared",
+                f"the exported columns walk the table in different orders ({orders}): after a reload, keys are paired with the values of other entries "
+                f"whenever the table was not filled in sorted key order")
+        return
     cols = lookup_columns(sf, sd, senv)
     lossy = []
     for v in sd.values:
